@@ -10,6 +10,7 @@ CONSTANTS
   Refs <- I_m11
   Masses <- I_123
   IPoss <- V_Small
+  IRots <- R_All
   SitePos <- V_Small
   SiteRots <- R_All
   Zones <- Z_All
